@@ -73,7 +73,11 @@ int main()
          else if (op == "elem") {
             auto p = param(a); auto v = expr(b);
             if (p == nullptr or v == nullptr) { std::cout << "bad-op\n"; continue; }
-            subs.push_back(std::make_shared<impl::Elementary_substitution>(*p, *v));
+            // through the factory a client uses (the Lexicon owns the node); every third one constructed directly
+            if (subs.size() % 3 == 2)
+               subs.push_back(std::make_shared<impl::Elementary_substitution>(*p, *v));
+            else
+               subs.push_back(std::shared_ptr<Substitution>(lx.make_elementary_substitution(*p, *v), [](Substitution*) { }));
             gens.push_back(nullptr);
             std::cout << 'S' << subs.size() - 1 << '\n';
          }
